@@ -1,6 +1,7 @@
 """C16 — the compiler is total (structural clauses)."""
 from checks.common import Ctx
 from sa.report import Check
+from sa.rules import resolve_rules as RR
 from sa.rules import dispatch as D
 from sa.rules import grammar_rules as GR
 from sa.rules import pipeline as P
@@ -59,4 +60,5 @@ def main(tier):
     chk.run("R-ERRSINK", P.errsink, r, floor=20)
     chk.run("R-ASSERTEFFECT", FL.asserteffect, r, floor=100)
     chk.run("R-LINESPLIT", K.linesplit, r, side="printer", floor=1)
+    chk.run("R-REFKIND", RR.refkind, r, s, floor=10)
     return chk.finish()
